@@ -216,6 +216,7 @@ def run(ctx):
             if not cfg.endswith("str"):
                 kw["mapper"] = m.ser
             case = dict(side="write", cfg=cfg, spec=spec, key_map=km_name, value_map=vm_name)
+            doc = None
             try:
                 tree.save(fp, meta=dict(meta), key_map=key_map, value_map=value_map, **kw)
             except Exception as e:  # noqa
@@ -239,7 +240,7 @@ def run(ctx):
                                  "ser": (m.ser_table(tree, ser) if kw else {})})
             if md.get("ok") != doc:
                 out.disagree(case, f"document differs from the model's: {json.dumps(doc)[:200]} vs {json.dumps(md.get('ok'))[:200]}")
-        if k < 2:
+        if k < 2 and doc is not None:
             out.sample(dict(side="write", tree=spec, doc=doc))
     # ---- reading side
     n_docs = 400 if ctx.thorough else 120
